@@ -94,7 +94,7 @@ def gen_program(rng, prop, tier, run_index):
         gamma = 0.5 if trap else float(rng.uniform(0.5, 0.9))
         beta = 0.25 if trap else float(0.25 * (gamma + 0.5) ** 2 * rng.uniform(1.0, 1.5))
         cfg.update(gamma=gamma, beta=beta, scenario=str(rng.choice(['generic', 'translate'], p=[0.8, 0.2])),
-                   dt0=float(10.0 ** rng.uniform(-2, 0)), tol=float(10.0 ** rng.uniform(-11, -8)),
+                   dt0=float(10.0 ** (rng.uniform(-2, 0) if rng.random() < 0.7 else rng.uniform(-5.5, -2))), tol=float(10.0 ** rng.uniform(-11, -8)),
                    u0=float(10.0 ** rng.uniform(-3, -1)), v0=float(10.0 ** rng.uniform(-2, 0)))
         if cfg['scenario'] == 'translate':
             cfg['bcs'] = []
@@ -130,8 +130,12 @@ def gen_program(rng, prop, tier, run_index):
             elif r < 0.75:
                 ops.append({'op': 'load_step', 'mag': float(10.0 ** rng.uniform(-3, -1.3)), 'useed': int(rng.integers(0, 2**31)),
                             **({'chol': [int(rng.choice([1, 1023]))]} if cfg['fault_mode'] and rng.random() < 0.4 else {})})
-            elif r < 0.9:
+            elif r < 0.86:
                 ops.append({'op': 'rebuild_bcs', 'bcs': [[s, int(c)] for s in SIDES for c in (0, 1) if rng.random() < 0.3]})
+            elif r < 0.93:
+                # the caller re-creates its application on the same triangulation with another element numbering
+                # (and, for linear triangles, another cyclic choice of each element's first vertex)
+                ops.append({'op': 'reorder_elements', 'pseed': int(rng.integers(0, 2**31))})
             else:
                 ops.append({'op': 'commit'})
     return {'engine': 'fe_app_sim', 'config': cfg, 'ops': ops}
@@ -523,6 +527,28 @@ class Statics(Base):
         with core.quiet_stdout():
             self.obj = OBJ.Objective(energy, jnp.asarray(self.U[self.unk]), p, OBJ.PrecondStrategy(assemble))
 
+    def reorder_elements(self, op):
+        L = self.L
+        jnp = L['jnp']
+        rb = np.random.Generator(np.random.PCG64(int(op['pseed'])))
+        conns = np.asarray(self.mesh.conns)
+        ne = conns.shape[0]
+        perm = rb.permutation(ne)
+        conns = conns[perm]
+        if self.cfg['mesh']['order'] == 1:
+            conns = np.array([np.roll(row, int(rb.integers(0, 3))) for row in conns])
+        self.mesh = self.mesh._replace(conns=jnp.asarray(conns), blocks={'block': jnp.arange(ne)}, sideSets=None)
+        self.state = jnp.asarray(np.asarray(self.state)[perm])
+        self.fs = L['FS'].construct_function_space(self.mesh, self.quad,
+                                                   mode2D='axisymmetric' if self.mode2D == 'axisymmetric' else 'cartesian')
+        with core.quiet_stdout():
+            self.mech = L['Mech'].create_mechanics_functions(self.fs, self.mode2D, self.mat, pressureProjectionDegree=self.cfg['ppd'])
+        self.blocks = None
+        self.replicas = []
+        self.set_bcs(self.bcs)
+        self.ctx.fault('restart')
+        self.ctx.label('reorder_elements')
+
     def make_block_replica(self):
         """Several k-block replicas of the same mesh (same material in every block).  Swarm over how the
         element ids are split (random subsets / consecutive ranges) and in which order each block lists
@@ -845,6 +871,8 @@ def run_program(program, ctx):
         elif k == 'rebuild_bcs':
             app.set_bcs(op['bcs'])
             ctx.label('rebuild_bcs')
+        elif k == 'reorder_elements':
+            app.reorder_elements(op)
         app.audit(k)
     if cfg.get('helpers'):
         app.adjoint_helpers_check()
